@@ -96,7 +96,11 @@ def cap_matrix(d):
 
 
 def spider_matrix(n_in, n_out, d):
-    """ sum_i |i..i><i..i| : d^n_in x d^n_out (one-hot on the diagonal). """
+    """
+    sum_i |i..i><i..i| : d^n_in x d^n_out (one-hot on the diagonal).
+    NB with no legs at all the sum is the scalar d, whereas discopy's
+    Spider(0, 0, d) holds the scalar 1; C09 only uses spiders with >= 1 leg.
+    """
     matrix = numpy.zeros((d ** n_in, d ** n_out))
     for i in range(d):
         row = col = 0
@@ -142,6 +146,11 @@ class Interp:
     # objects
     def wires(self, ob):
         """ Tuple of wire dimensions of the atomic type (1s dropped). """
+        objects = getattr(ob, "objects", None)
+        if objects is not None:               # a one-object type was passed
+            if len(objects) != 1:
+                raise KronEvalError("not an atomic type: {!r}".format(ob))
+            ob = objects[0]
         name = getattr(ob, "name", ob)
         if name in self.ob_dims:
             value = self.ob_dims[name]
@@ -208,6 +217,9 @@ class DataInterp(Interp):
         super().__init__(0)
 
     def wires(self, ob):
+        objects = getattr(ob, "objects", None)
+        if objects is not None and len(objects) == 1:
+            ob = objects[0]
         name = getattr(ob, "name", ob)
         if isinstance(name, bool) or not isinstance(name, int):
             raise KronEvalError("wire {!r} is not a dimension".format(name))
